@@ -1,6 +1,7 @@
 package zzverif
 
 import (
+	"math/big"
 	"bytes"
 	"encoding/binary"
 	"encoding/json"
@@ -107,6 +108,7 @@ type msgChan struct {
 	dels  []*delivery
 	fin      bool
 	finMaybe bool
+	cmdAt    map[*consumer]time.Time // last time a connection sent a command naming this message
 	finAt    time.Time
 	epoch    int
 }
@@ -215,6 +217,7 @@ type qWorld struct {
 	stale    []*staleCmd
 	epoch    int // settle epoch: operations between two settles are concurrent
 	badRdy   []*consumer
+	badReq   []*consumer
 	burstOps []Op
 	lastStats *statsDoc
 }
@@ -512,17 +515,21 @@ func (w *qWorld) opPub(op Op) func() {
 		body := w.makeBody(r, sizeClass, false)
 		var deferMs int64
 		line := "PUB " + topic
+		expect := 0 // 0 no expectation, 1 must be accepted, -1 must be refused
+		spellS := ""
 		if kind == 2 {
 			deferMs = op.D
 			spell := fmt.Sprintf("%d", deferMs)
 			if op.S2 != "" {
 				spell = op.S2
 			}
+			spellS = spell
+			deferMs, expect = w.expectDefer(spell, false)
 			line = "DPUB " + topic + " " + spell
 		}
 		p := w.recordPub(body, topic, "tcp", idx, deferMs, 0, 0)
 		c.Cmd(line, body)
-		return func() { w.completeTCPPub(c, []*pubRec{p}) }
+		return func() { w.completeTCPPub(c, []*pubRec{p}); w.checkDeferOutcome(p, expect, "DPUB", spellS, len(body)) }
 	case 1: // MPUB over TCP
 		c, idx := w.pubConn(connSel)
 		if c == nil {
@@ -542,16 +549,21 @@ func (w *qWorld) opPub(op Op) func() {
 		body := w.makeBody(r, sizeClass, false)
 		var deferMs int64
 		q := "/pub?topic=" + url.QueryEscape(topic)
+		expect := 0
+		spellS := ""
 		if kind == 6 {
 			deferMs = op.D
 			spell := fmt.Sprintf("%d", deferMs)
 			if op.S2 != "" {
 				spell = op.S2
 			}
+			spellS = spell
+			deferMs, expect = w.expectDefer(spell, true)
 			q += "&defer=" + url.QueryEscape(spell)
 		}
 		p := w.recordPub(body, topic, "http", -1, deferMs, 0, 0)
-		return w.httpPub(q, body, []*pubRec{p})
+		done := w.httpPub(q, body, []*pubRec{p})
+		return func() { done(); w.checkDeferOutcome(p, expect, "/pub defer", spellS, len(body)) }
 	case 4, 5: // HTTP /mpub text, binary
 		w.nextBatch++
 		var bodies [][]byte
@@ -670,6 +682,13 @@ func (w *qWorld) opSub(op Op) {
 		cl.Close()
 		return
 	}
+	// Let nsqd apply the negotiated settings before anything else is sent: its
+	// delivery pump learns them through a one-slot event channel, and a message
+	// it hands out before consuming that event uses the defaults (msg_timeout,
+	// sample rate, ...). A client that waits for the IDENTIFY response, as the
+	// protocol requires for feature negotiation, gives the pump a network round
+	// trip to do so; here that is a quiescence point. (DESIGN.md, observations.)
+	synctest.Wait()
 	cl.Start()
 	cl.Cmd("SUB "+topic+" "+ch, nil)
 	f, ok := cl.WaitFrame(30*time.Second, isNonMsg)
@@ -779,6 +798,7 @@ func (w *qWorld) opAnswer(op Op) {
 	d = held[int(uint64(op.B)%uint64(len(held)))]
 	id := d.mc.pub.ID
 	w.rc.Logf("%s %s m%06d (att %d)", co.cl.Name, op.Kind, d.mc.pub.N, d.Att)
+	d.mc.noteCmd(co)
 	switch op.Kind {
 	case "fin":
 		d.Answer, d.AnsAt, d.AnsStep = "fin", time.Now(), w.epoch
@@ -790,6 +810,21 @@ func (w *qWorld) opAnswer(op Op) {
 		spell := fmt.Sprintf("%d", delay)
 		if op.S2 != "" {
 			spell = op.S2
+			v, valid, known := spelledDelay(spell, false)
+			switch {
+			case !known || (valid && strings.ContainsAny(spell, " ")):
+				d.fateUnknown = true
+				d.ReqDelay = 0
+			case !valid:
+				// not a number: fatal E_INVALID, the message stays in flight
+				d.Answer, d.AnsStep = "", 0
+				co.fatalSent, co.expectClose, co.expectCloseStep = true, true, w.epoch
+				w.badReq = append(w.badReq, co)
+			case v.Cmp(big.NewInt(w.cfg.MaxReqTimeoutMs)) > 0:
+				d.ReqDelay = ms(w.cfg.MaxReqTimeoutMs)
+			default:
+				d.ReqDelay = ms(v.Int64())
+			}
 		}
 		co.cl.Cmd("REQ "+id+" "+spell, nil)
 	case "touch":
@@ -803,6 +838,7 @@ func (w *qWorld) sendStale(co *consumer, d *delivery, kind int64) {
 	k := []string{"FIN", "REQ", "TOUCH"}[int(uint64(kind)%3)]
 	line := k + " " + id
 	w.rc.Logf("%s stale %s m%06d", co.cl.Name, k, d.mc.pub.N)
+	d.mc.noteCmd(co)
 	if k == "REQ" {
 		line += " 0"
 	}
@@ -1152,3 +1188,63 @@ func listDataFiles(dir string) []string {
 }
 
 var _ = simnet.RefuseNone
+
+func (mc *msgChan) noteCmd(co *consumer) {
+	if mc.cmdAt == nil {
+		mc.cmdAt = map[*consumer]time.Time{}
+	}
+	mc.cmdAt[co] = time.Now()
+}
+
+// spelledDelay interprets a delay as written on the wire. valid: the text is a
+// number in the syntax of that interface (TCP: decimal digits; HTTP: optional
+// sign and decimal digits). known=false: the syntax leaves it open (empty TCP
+// parameter).
+func spelledDelay(sp string, http bool) (v *big.Int, valid bool, known bool) {
+	if sp == "" || (!http && strings.ContainsAny(sp, " ")) {
+		// TCP parameters are separated by spaces: not a way of writing one number
+		return nil, false, http
+	}
+	t := sp
+	if http && (t[0] == '+' || t[0] == '-') {
+		t = t[1:]
+	}
+	if t == "" {
+		return nil, false, true
+	}
+	for i := 0; i < len(t); i++ {
+		if t[i] < '0' || t[i] > '9' {
+			return nil, false, true
+		}
+	}
+	v, _ = new(big.Int).SetString(t, 10)
+	if http && sp[0] == '-' {
+		v.Neg(v)
+	}
+	return v, true, true
+}
+
+// expectDefer: what the property demands for a deferred publish written as sp.
+func (w *qWorld) expectDefer(sp string, http bool) (deferMs int64, expect int) {
+	v, valid, known := spelledDelay(sp, http)
+	if !known {
+		return 0, 0
+	}
+	if !valid || v.Sign() < 0 || v.Cmp(big.NewInt(w.cfg.MaxReqTimeoutMs)) > 0 {
+		return 0, -1
+	}
+	return v.Int64(), 1
+}
+
+func (w *qWorld) checkDeferOutcome(p *pubRec, expect int, what, sp string, bodyLen int) {
+	if expect == 0 || p.Unknown || int64(bodyLen) > w.cfg.MaxMsgSize {
+		return
+	}
+	w.rc.Probe("defer_spelling_checked")
+	if expect < 0 && p.Acked {
+		w.violate("C04", "defer-out-of-range-accepted", "%s with delay written %q (max-req-timeout %dms) was accepted", what, sp, w.cfg.MaxReqTimeoutMs)
+	}
+	if expect > 0 && p.Rejected {
+		w.violate("C04", "valid-defer-rejected", "%s with delay written %q (max-req-timeout %dms) was refused", what, sp, w.cfg.MaxReqTimeoutMs)
+	}
+}
